@@ -317,6 +317,9 @@ def to_rat(v):
 
 
 # --------------------------------------------------------------------------
+_CALL_FLAGS = ('_call_has_out', '_call_out_optional')
+
+
 class Interp(object):
     """One symbolic execution under a dict of assumptions."""
 
@@ -717,6 +720,9 @@ class Interp(object):
                 except Exception:
                     raise Undecided('class attribute %s.%s' % (obj.ci.name,
                                                                name))
+            if name in _CALL_FLAGS and self.model.is_subclass(obj.ci,
+                                                             'Operator'):
+                return self.call_flags(obj.ci)[name]
             raise PyRaise('AttributeError', ast.parse(
                 '%s.%s' % (obj.ci.name, name)).body[0])
         if isinstance(obj, OpV):
@@ -788,9 +794,32 @@ class Interp(object):
                                                                 name)()))
         raise Undecided('attribute %s of %r' % (name, obj))
 
+    def call_flags(self, ci):
+        """The flags Operator.__new__ derives from the signature of the
+        class's `_call` (has an `out` parameter / it is optional)."""
+        dc, fn = self.model.lookup(ci, '_call')
+        if not isinstance(fn, ast.FunctionDef) or dc.name == 'Operator':
+            raise Undecided('%s has no _call' % ci.name)
+        pos = [p.arg for p in fn.args.args]
+        has_out = 'out' in pos or 'out' in [p.arg for p in
+                                            fn.args.kwonlyargs]
+        ndef = len(fn.args.defaults)
+        out_optional = has_out and ('out' not in pos or
+                                    pos.index('out') >= len(pos) - ndef)
+        return {'_call_has_out': has_out, '_call_out_optional': out_optional}
+
     def op_attr(self, op, name):
         if name in op.attrs:
             return op.attrs[name]
+        if name in _CALL_FLAGS:
+            # an abstract leaf may have either kind of `_call`
+            k = op.term.key() if hasattr(op.term, 'key') else None
+            if k is None:
+                raise Undecided('%s of a composite abstract operator' % name)
+            if name == '_call_out_optional' and not self.truth_value(
+                    _Cond('leaf %r has_out' % (k,)), None):
+                return False
+            return _Cond('leaf %r %s' % (k, name[6:]))
         if name == 'domain':
             return op.domain
         if name == 'range':
